@@ -1,5 +1,21 @@
-(* STUB: Spec layer for bert -- to be written *)
-From Coq Require Import NArith List.
-From ACPI Require Import Lib.Bytes Lib.Sx Spec.Layout.
+(* Spec layer for the BERT (ACPI 6.5 18.3.1), written from SPEC_NOTES.md A.1:
+   header, 36+4 BootErrorRegionLength, 40+8 BootErrorRegion (48 bytes).
+   Case vocabulary (shared with the harness, component 27):
+     ctor  (oem6 tbl8 orev region_length region_base)    BERT::new(oem_id, oem_table_id, oem_revision, u32, u64)
+     ops   none (observations only) *)
+From Coq Require Import NArith List Bool.
+From ACPI Require Import Lib.Bytes Lib.Sx Spec.Layout Spec.FixedS.
 Import ListNotations.
-Definition bert_spec : tspec := null_spec.
+Open Scope N_scope.
+
+Definition bert_ref (ctor : sx) : option (list N) :=
+  match ctor with
+  | SL [o; t; r; SA rlen; SA rbase] =>
+      match sx_hdr_args o t r, lay_at 36 12 [L 36 4 rlen; L 40 8 rbase] with
+      | Some h, Some body => Some (ref_table [66; 69; 82; 84] 1 h body)       (* "BERT", revision 1 (crate) *)
+      | _, _ => None
+      end
+  | _ => None
+  end.
+
+Definition bert_spec : tspec := fixed_spec (ctor_only bert_ref).
